@@ -12,7 +12,7 @@ from vt.props import common as cm
 PID = "C02"
 RULE = (
     "[plus a small 'cli_wiring' part: generated `taskiq worker` flag sets parsed by the real WorkerArgs.from_cli and turned into a receiver by the real start_listen(); the acknowledge type selected with --ack-type (any case; default when_saved) is the one the worker's receiver uses] "
-    "Hypothesis-generated scenarios: 1-8 ackable messages (sync or async ack callback; a few malformed/unknown), "
+    "Hypothesis-generated scenarios: 1-8 ackable messages (sync, async, future-returning or deferred ack callback, or one that itself raises - a call counts when the callback is entered; a few malformed/unknown), "
     "three acknowledge types, async bodies optionally with an asynchronous clean-up in `finally` (they finish only some time after a timeout cancels them), outcomes return / Exception / BaseException subclasses / timeout label exceeded / "
     "no-result / result-backend failure on a generated subset of saves, save latency, A in 1..4, P in 0..3, max_tasks_to_execute in None|1..4, optional "
     "stop. Oracle over the trace of the real Receiver: ack count == 1 per well-formed message (<=1 for skipped); "
@@ -40,7 +40,7 @@ def scenario(big: bool = False) -> Any:
         return d
 
     msg = cm.message(kinds=("async", "async", "async", "async", "sync", "bad", "unknown"),
-                     acks=("sync", "async", "future", "deferred"), timeouts=(None, None, None, 0.3, 1, "0.35"), cleanups=(0, 0, 0, 0.2))
+                     acks=("sync", "sync", "async", "async", "future", "deferred", "sync_fail", "async_fail"), timeouts=(None, None, None, 0.3, 1, "0.35"), cleanups=(0, 0, 0, 0.2))
     return st.fixed_dictionaries({
         "A": st.integers(1, 6 if big else 4), "P": st.integers(0, 6 if big else 3), "N": st.sampled_from([None, None, None, 1, 2, 3, 4] + ([6, 9] if big else [])),
         "ack_type": st.sampled_from(["when_received", "when_executed", "when_saved"]),
@@ -150,7 +150,7 @@ def run_case(sc: Dict[str, Any]) -> Outcome:
     out.classes = [at] + [c for c, f in (("overlap", overlapping), ("non_return_outcome", nonret),
                                          ("save_failure", any(e[1] == "save_failed" for e in tr)),
                                          ("timeout_hit", any(e[1] == "save_start" and e[3].get("err") == "TimeoutError" for e in tr)),
-                                         ("async_ack", any(sp.get("ack") == "async" for sp in specs))) if f]
+                                         ("async_ack", any(sp.get("ack") == "async" for sp in specs)), ("failing_ack", any(str(sp.get("ack")).endswith("_fail") for sp in specs))) if f]
     return out
 
 
